@@ -60,6 +60,8 @@ let chunks (s : string) : (bool * n list) list =
       | [d; x] -> (d = "1", unhex x)
       | _ -> failwith ("bad chunk " ^ c)) (String.split_on_char ',' s)
 
+let facts_memo : (string, (n list * n list * n * n) option * bool) Hashtbl.t = Hashtbl.create 64
+
 type case = { mutable id : string; mutable conv : conv_name; mutable tbl : (int * rx) list; mutable ors : cond list list;
               mutable streams : stream list; mutable cur : (source option * source option list) option; mutable bad : string }
 
@@ -87,12 +89,18 @@ let () =
            let fx = { f_prefix = unhex pre; f_suffix = unhex suf; f_min = n_of_string mn; f_max = n_of_string mx } in
            (* the facts the implementation uses must be the ones the model computes (programs without assertions) *)
            if wf p && assertion_free p then begin
-             let (mp, mc) = prog_prefix p in
-             let mfx =
-               if mc then Some (mp, mp, n_of_int (List.length mp), n_of_int (List.length mp))
-               else match accepted_length_cached p, constant_suffix_b p with
-                 | Some (a, b), Some s -> Some (mp, s, a, b)
-                 | _, _ -> None in
+             (* the analyses of one program are computed once per run (an expression that exhausts the suffix budget costs 2^18 calls) *)
+             let mfx, mc =
+               match Hashtbl.find_opt facts_memo (st ^ " " ^ is) with
+               | Some v -> v
+               | None ->
+                 let (mp, mc) = prog_prefix p in
+                 let v =
+                   (if mc then Some (mp, mp, n_of_int (List.length mp), n_of_int (List.length mp))
+                    else match accepted_length_cached p, constant_suffix_b p with
+                      | Some (a, b), Some s -> Some (mp, s, a, b)
+                      | _, _ -> None), mc in
+                 Hashtbl.add facts_memo (st ^ " " ^ is) v; v in
              match mfx with
              | Some (a, b, x, y) when a = fx.f_prefix && b = fx.f_suffix && x = fx.f_min && y = fx.f_max && (mc = (compl = "1")) -> ()
              | Some (a, b, x, y) -> c.bad <- Printf.sprintf "FACTS regex %s: impl %s/%s/%s/%s model %s/%s/%s/%s" k pre suf mn mx (hex a) (hex b) (n_to_string x) (n_to_string y)
